@@ -265,6 +265,14 @@ func (c *FnCtx) libraryModel(x *ssa.Call, obj *types.Func, common *ssa.CallCommo
 		}
 		st.heaps[key] = store(h, sBase(s), arr)
 		return true
+	case "(context.Context).Err":
+		used()
+		done := c.ctxAdvance(st)
+		e := c.fresh("ctxerr", SInt)
+		c.define(ge(e, tZero))
+		c.define(eq(not(eq(e, tZero)), sel(done, args[0].t)))
+		setResult(Val{kind: vTerm, t: e})
+		return true
 	case "bytes.Equal":
 		used()
 		a, b := args[0].t, args[1].t
